@@ -219,3 +219,113 @@ func sameObject(a, b ssa.Value) bool {
 }
 
 var _ = types.Typ
+
+// copyLiterals: a struct literal that copies at least three fields from the same-named fields of one
+// source value is a field-by-field copy; a field of it that is taken from a DIFFERENT field of that
+// source although the source has a field of the literal field's own name (and type) is a copy-paste
+// slip (the encoder writes one field twice and drops another).
+func (c *Ctx) copyLiterals(rule string, exc map[string]string, rels ...string) int {
+	n := 0
+	for _, f := range c.moduleFuncs(rels...) {
+		allInstrs(f, func(_ *ssa.BasicBlock, in ssa.Instruction) {
+			al, ok := in.(*ssa.Alloc)
+			if !ok {
+				return
+			}
+			pt, ok := al.Type().(*types.Pointer)
+			if !ok {
+				return
+			}
+			st, ok := pt.Elem().Underlying().(*types.Struct)
+			if !ok || len(storesTo(al)) > 0 {
+				return
+			}
+			type src struct {
+				base  ssa.Value
+				field string
+				typ   types.Type
+				pos   token.Pos
+			}
+			got := map[string]src{}
+			refs := al.Referrers()
+			if refs == nil {
+				return
+			}
+			for _, r := range *refs {
+				fa, ok := r.(*ssa.FieldAddr)
+				if !ok {
+					continue
+				}
+				name := st.Field(fa.Field).Name()
+				for _, s := range storesTo(fa) {
+					v := s.Val
+					var base ssa.Value
+					var fld string
+					switch x := v.(type) {
+					case *ssa.UnOp:
+						if x.Op == token.MUL {
+							if sfa, ok := x.X.(*ssa.FieldAddr); ok {
+								if _, fn, ok := fieldOf(sfa); ok {
+									base, fld = sfa.X, fn
+								}
+							}
+						}
+					case *ssa.Field:
+						if _, fn, ok := fieldOf(x); ok {
+							base, fld = x.X, fn
+						}
+					}
+					if base != nil {
+						got[name] = src{base, fld, v.Type(), s.Pos()}
+					}
+				}
+			}
+			// group by base
+			same := map[ssa.Value]int{}
+			for name, s := range got {
+				if s.field == name {
+					same[s.base]++
+				}
+			}
+			for name, s := range got {
+				if same[s.base] < 3 || s.field == name {
+					continue
+				}
+				// does the source have a field called `name` of the same type?
+				bt := s.base.Type()
+				if p, ok := bt.Underlying().(*types.Pointer); ok {
+					bt = p.Elem()
+				}
+				bs, ok := bt.Underlying().(*types.Struct)
+				if !ok {
+					continue
+				}
+				has := false
+				for i := 0; i < bs.NumFields(); i++ {
+					if bs.Field(i).Name() == name && types.Identical(bs.Field(i).Type(), s.typ) {
+						has = true
+					}
+				}
+				if !has {
+					continue
+				}
+				n++
+				key := fmt.Sprintf("%s literal field %s <- .%s", fnName(f), name, s.field)
+				if why, ok := exc[key]; ok {
+					c.exc(rule, key, s.pos, why)
+				} else {
+					c.bad(rule, key, s.pos, fmt.Sprintf("%s copies a value field by field (%d fields from their namesakes) but fills %s from the source's %s although the source has a %s of the same type: one field is written twice and %s is lost", fnName(f), same[s.base], name, s.field, name, name))
+				}
+			}
+			if len(same) > 0 {
+				for b, k := range same {
+					if k >= 3 {
+						_ = b
+						c.ok(rule, fmt.Sprintf("%s field-by-field copy of %d fields", fnName(f), k), al.Pos(), "every copied field comes from its namesake")
+					}
+				}
+			}
+		})
+	}
+	return n
+}
